@@ -7,6 +7,8 @@ import PowHsm.Spec.C14
 import PowHsm.Ledger.Protocol
 import PowHsm.Spec.C03
 import PowHsm.Spec.C02
+import PowHsm.Spec.C04
+import PowHsm.Spec.C11
 namespace PowHsm
 namespace Ops
 open Ledger Comm Dongle Spec
@@ -119,6 +121,12 @@ def run (op : String) (input implOut : Json) : Option (Json × Bool) :=
   | "line.C02" => line (fun i o => match i.get? "request" with
       | some j => Spec.C02.allowedObs (modeOfJson i) j o
       | none => Spec.C02.allowedObs (modeOfJson i) (.str "<undecodable>") o) input implOut
+  | "line.C04" => line (fun i o => match worldOfJson i, i.get? "request" with
+      | some w, some j => Spec.C04.c04 (modeOfJson i) j w.script w.commIssue o
+      | _, _ => false) input implOut
+  | "line.C11" => line (fun i o => match worldOfJson i, i.get? "request" with
+      | some w, some j => Spec.C11.c11 (modeOfJson i) (Spec.C04.commandOf j) w.script w.commIssue o
+      | _, _ => false) input implOut
   | _ => none
 
 end Ops
